@@ -113,6 +113,20 @@ def validate_loader(wd, fname, text, pos_paths):
                     obs["positions"].append({"path": m.group(1), "l": int(m.group(2)), "c": int(m.group(3)),
                                              "from_path": b["check"]["Resolved"]["from"]["path"]})
     if pos_paths:
+        # the same rules and document handed over as a payload on stdin: positions are counted in the document text
+        rc3, so3, _ = cli.run(["validate", "--payload", "--structured", "-o", "json", "-S", "none"],
+                              stdin=json.dumps({"rules": [rules], "data": [text]}))
+        obs["payload"] = []
+        try:
+            p3 = find_rule(json.loads(so3)[0], "pos")
+            for c in (p3 or {}).get("checks", []):
+                b = c.get("Clause", {}).get("Binary")
+                if b and "Resolved" in b["check"]:
+                    m = PATH_RE.search(b["messages"]["error_message"])
+                    if m:
+                        obs["payload"].append({"path": b["check"]["Resolved"]["from"]["path"], "l": int(m.group(2)), "c": int(m.group(3))})
+        except (ValueError, KeyError, IndexError, TypeError):
+            obs["payload"] = [{"path": "/?", "l": -1, "c": -1}]
         # the same run reported as SARIF: the region of every result of rule `pos`, with the path its message names
         rc2, so2, _ = cli.run(["validate", "-r", rpath, "-d", dpath, "--structured", "-o", "sarif", "-S", "none"])
         obs["sarif"] = []
